@@ -50,8 +50,9 @@ def mk_behaviour(spec):
         elif k == 'remove': out = {t: f for t, f in out.items() if t != spec['name']} or out
         elif k == 'blank': out[spec['name']] = Frame()      # an empty frame after the topics that carry data (codec: the data part is optional)
         elif k == 'lone':
-            if not out: return out
-            t0 = 'main' if 'main' in out else sorted(out)[0]
+            vis = sorted(t for t in out if not t.startswith('_'))      # hidden topics (MQ's '_metrics' / '_filter' seen through a '*' subscription) are not the filter's frame
+            if not vis: return {}
+            t0 = 'main' if 'main' in out else vis[0]
             return out[t0]
         elif k == 'defer':
             def late(out=out, node=node, s=s):
@@ -81,7 +82,9 @@ def gen_topology(rng, family=None, c03=True, nframes=None):
         elif r < 0.85: b = {'kind': 'add', 'name': 'x' + str(len(nodes))}
         elif r < 0.93: b = {'kind': 'blank', 'name': 'blank' + str(len(nodes))}
         else: b = {'kind': 'pass'}
-        if allow_skip and rng.random() < 0.5: b['skip'] = rng.sample(range(nframes), rng.randint(1, 2))
+        if allow_skip and rng.random() < 0.5:
+            b['skip'] = rng.sample(range(nframes), rng.randint(1, 2))
+            if rng.random() < 0.35: b['skip'] = sorted(set(b['skip']) | {0})      # the very first frame(s) skipped: downstream ids start above 0 while connections are still being set up
         if rng.random() < 0.15: b['empty'] = rng.sample(range(nframes), 1)
         return b
     def work(): return rng.choice([0, 0, 0, 5, 40, 150, 300])
@@ -131,6 +134,10 @@ def gen_topology(rng, family=None, c03=True, nframes=None):
     # OUTPUTS_METRICS_PUSH on (publish regardless of listeners) or off (only when a listener asked); the data path must not notice
     for n in nodes:
         if n['out'] and rng.random() < 0.2: n['metrics'] = True
+        # the defaults of a deployed filter: MQ adds the hidden topics '_metrics' (OUTPUTS_METRICS=true) and '_filter' (OUTPUTS_FILTER=true) to every set it
+        # publishes; only '*' subscribers (or subscribers naming them) may ever see them
+        elif n['out'] and rng.random() < 0.3: n['inject_metrics'] = True
+        if n['out'] and rng.random() < 0.3: n['inject_filter'] = True
     return {'family': family, 'nframes': nframes, 'nodes': nodes, 'max_delay_ms': rng.choice([0, 5, 20, 60, 90]),
             'sub_connect_ms': rng.choice([0, 0, 30, 90, 400]), 'metrics_push': rng.random() < 0.5}     # slow joiner: the publish path of a connection comes up later than its request path
 
@@ -141,7 +148,8 @@ def build(net, topo, listeners=()):
     for n in topo['nodes']:
         nd = mqnet.Node(net, n['name'], n['sources'] or None, [f"ipc://{n['name']}"] if n['out'] else None, mk_behaviour(n['beh']),
                         required=n.get('required') or None, work_ms=n['work'], srcs_balance=n.get('srcs_balance', False), outs_balance=n.get('outs_balance', False),
-                        nframes=(topo['nframes'] if not n['sources'] else None), metrics=(f"ipc://{n['name']}.metrics" if n.get('metrics') else None))
+                        nframes=(topo['nframes'] if not n['sources'] else None),
+                        metrics=(f"ipc://{n['name']}.metrics" if n.get('metrics') else True if n.get('inject_metrics') else None), filt=bool(n.get('inject_filter')))
         nd.evals = []
         nd.sends = []
         objs[n['name']] = nd
@@ -179,6 +187,13 @@ def reference(topo):
         beh = mk_behaviour(n['beh'])
         rn = RefNode(n['name'])
         outs, ins = [], []
+        fid = [0]
+
+        def inject(r, n=n, fid=fid):
+            """what MQ.send's callback adds to a published dict: '_metrics' (outs_metrics is True), then '_filter' (frame id: own counter, our frames carry no meta.id)"""
+            if n.get('inject_metrics'): r = {**r, '_metrics': Frame({'__metrics__': True})}
+            if n.get('inject_filter'): r = {**r, '_filter': Frame({'id': fid[0]})}; fid[0] += 1
+            return r
         if not n['sources']:
             k = 0
             for i in range(topo['nframes']):
@@ -187,7 +202,7 @@ def reference(topo):
                 if callable(r): r = r()
                 if r is None: continue
                 if isinstance(r, Frame): r = {'main': r}
-                outs.append((k, r)); k += 1
+                outs.append((k, inject(r))); k += 1
         else:
             srcs = [parse_source(s) for s in n['sources']]
             sync = [(p, t) for p, t, e in srcs if not e]
@@ -205,13 +220,14 @@ def reference(topo):
                 if callable(r): r = r()
                 if r is None: continue
                 if isinstance(r, Frame): r = {'main': r}
-                outs.append((i, r))
+                outs.append((i, inject(r)))
         out[n['name']] = outs; inp[n['name']] = ins
     return inp, out
 
 
 def canon_frames(fr):
-    return {t: {k: v for k, v in f.data.items()} for t, f in fr.items()}
+    # '_metrics' carries measurements (time stamps, fps, cpu): only its presence is compared
+    return {t: ({'__metrics__': True} if t == '_metrics' else {k: v for k, v in f.data.items()}) for t, f in fr.items()}
 
 
 # ---------------------------------------------------------------------------------------------- one run + oracles
